@@ -46,7 +46,7 @@ def gen_case(rng, tier, idx):
                       "marketPrice": 100.0}
         cfg["simulation"]["markets"].append("IDX")
         mk.append("IDX")
-    r = rng.choice([0.01, 0.03, 0.1, 0.3, 0.3, 0.75, 1.0, 2.5])
+    r = rng.choice([0.0, 0.01, 0.03, 0.1, 0.3, 0.3, 0.75, 1.0, 2.5])
     k = rng.randint(1, len(mk) - 1)
     targets = rng.sample(mk, k)
     cfg["PL"] = {"class": "PriceLimitRule", "targetMarkets": targets, "triggerChangeRate": r}
